@@ -427,6 +427,18 @@ func (c *Ctx) vetoRules(a *coreAnchors) {
 			}
 			s := w.Instr
 			k++
+			// the dropped position is that of a state which IS in the target: never one drawn from Exits
+			// (an exiting state is by construction absent from the target: Index gives -1 and Delete panics)
+			if fEx := c.field(pm, "Transition", "Exits"); fEx != nil && len(dcall.Call.Args) == 3 {
+				fromExits := false
+				valueTree(dcall.Call.Args[1], 8, func(x ssa.Value) {
+					if ia, ok := x.(*ssa.IndexAddr); ok && loadOfField(ia.X) == fEx {
+						fromExits = true
+					}
+				})
+				c.check(!fromExits, "C07.part", fmt.Sprintf("%s target deletion%s drops a state that is in the target", funcKey(f), nth(k-1)), s.Pos(),
+					"the position comes from looking up an element of Transition.Exits in the target states: exiting states are never targets, the lookup yields -1 and slices.Delete panics in the caller's goroutine")
+			}
 			gs := guardsOf(s.Block())
 			ia, as := isPartialGuards(gs)
 			key := fmt.Sprintf("%s target deletion%s guard[IsAuto && State.Auto]", funcKey(f), nth(k-1))
@@ -643,7 +655,7 @@ func (c *Ctx) rulesC07(a *coreAnchors) {
 	}
 	c.Obligs = append(save, keep...)
 	c.Undecided = filterStr(c.Undecided, "C05.veto")
-	c.floor("C07.part", 4)
+	c.floor("C07.part", 3)
 
 	// C07.iter
 	c.rangeDeleteLint("C07.iter", []string{pm})
